@@ -1,6 +1,9 @@
 #include <occa/internal/core/device.hpp>
 #include <occa/internal/core/kernel.hpp>
 #include <occa/internal/core/memory.hpp>
+#ifdef LIBOCCA_OCCA_VERIF
+#include <occa/internal/verif.hpp>
+#endif
 
 namespace occa {
   modeKernel_t::modeKernel_t(modeDevice_t *modeDevice_,
@@ -11,10 +14,16 @@ namespace occa {
     name(name_),
     sourceFilename(sourceFilename_),
     properties(properties_) {
+#ifdef LIBOCCA_OCCA_VERIF
+    verif::liveAdd(verif::clsKernel, 1);
+#endif
     modeDevice->addKernelRef(this);
   }
 
   modeKernel_t::~modeKernel_t() {
+#ifdef LIBOCCA_OCCA_VERIF
+    verif::liveAdd(verif::clsKernel, -1);
+#endif
     // NULL all wrappers
     while (kernelRing.head) {
       kernel *k = (kernel*) kernelRing.head;
